@@ -23,7 +23,9 @@ LEVEL_NOTE = ('Trusted: mc/gf2.py (self-tested), the size-family table of DESIGN
               'qubit bound / per-axis length bound stated in the evidence.')
 RULE = ('every (class, size, deformation) with size in the DESIGN §3 family, n <= bound and L <= l_max (at '
         'least the 3 smallest family sizes per class); each configuration is distinct by construction and '
-        'non-trivial (n >= 1 qubits, at least one generator)')
+        'non-trivial (n >= 1 qubits, at least one generator); every deformed configuration additionally as a '
+        '"used object" (all derived data read, deformed by another offered name, read again, then deformed); one '
+        'session per class builds several sizes/deformations one after the other in one process')
 ASSUMPTIONS = ['size family per class as fixed in DESIGN.md §3',
                'GF(2) reference algebra mc/gf2.py']
 BOUNDS = {'quick': {'max_n': 150, 'l_max_2d': 6, 'l_max_3d': 4},
